@@ -148,7 +148,7 @@ func binaryOperatorUniverse(p *Program, m *prattModel) (map[string]string, []str
 				} else {
 					u[inner] = where
 				}
-			case tagR == "*p.previous" || tagR == "*p.current" || tagR == "opToken":
+			case tagR == "*p.previous" || tagR == "*p.current" || tagR == "opToken" || consumedTokenText(p, tagR):
 				base := rowsOf(f)
 				if tagR == "opToken" {
 					// helper taking the operator token as a parameter: handled through its callers
@@ -160,6 +160,7 @@ func binaryOperatorUniverse(p *Program, m *prattModel) (map[string]string, []str
 				}
 				// refine by the tag tests between the read of the token and the construction
 				loc := tagR + ".Tag"
+
 				ms := p.maySetOf(f, loc, base)
 				for _, t := range ms.At(a.Block()) {
 					u[t] = where
@@ -952,4 +953,13 @@ func operandEvaluation(c *Ctx, eb, eu *ssa.Function) {
 			}
 		}
 	}
+}
+
+// consumedTokenText: the rendering is the token returned by a consume-and-return helper of the parser
+func consumedTokenText(p *Program, r string) bool {
+	const pre, suf = "(*lang.Parser).", "(p)#0"
+	if !strings.HasPrefix(r, pre) || !strings.HasSuffix(r, suf) {
+		return false
+	}
+	return isConsumedTokenHelper(p.LangFunc("(*Parser)." + r[len(pre):len(r)-len(suf)]))
 }
